@@ -24,7 +24,10 @@ unsigned case_timeout_s() { return 1800; }
 // hll8_large_lgk: HLL_8 sketches of lg_k 16 (thorough also 17) with n = 11k, beyond the last point of the composite interpolation
 // table (10k): published errors of 0.3-0.4% make a small relative bias of HIP or composite estimate visible with few trials.
 enum Fam { F_HLL4, F_HLL6, F_HLL8, F_HLL_UNION, F_HLL_UNION_MIXED, F_RAW, F_HLL_REUSE = F_RAW + 9, F_HLL_UNION_REUSE, F_HLL8_LARGE,
-           F_SETSRC_ALONE, F_SETSRC_AFTER_RAW, F_SETSRC_INTO_HLL_GADGET, F_SETSRC_THEN_RAW, F_ROLLUP, F_N };
+           F_SETSRC_ALONE, F_SETSRC_AFTER_RAW, F_SETSRC_INTO_HLL_GADGET, F_SETSRC_THEN_RAW, F_ROLLUP, F_DOWN4, F_DOWN6, F_DOWN8, F_N };
+// hll{4,6,8}_downsample_large_n: two sources of lg_k 7 (thorough also 8) of one target type with 2^22 keys each (registers 16 and above)
+//   are folded into a union of lg_max_k 6: few trials, but an error in reading large registers moves the estimate by far more than the
+//   published error.
 // hll_union_set_source_*: a source of lg_k 20/21 that is still in SET mode (16k..64k coupons, below its own promotion point) is fed
 //   into a union of lg_max_k 12 / 15, whose gadget is promoted to HLL mode during the feed: alone / after 20 raw items (gadget in
 //   LIST mode) / into a gadget already in HLL mode through raw items (even trials) or an HLL-mode sketch (odd trials) / followed by
@@ -34,7 +37,7 @@ static const char* FAM_NAME[] = {"hll4", "hll6", "hll8", "hll_union", "hll_union
   "hll_union_sketch_raw_finer", "hll_union_sketch_raw_equal", "hll_union_sketch_raw_coarser",
   "hll_union_raw_sketch_finer", "hll_union_raw_sketch_equal", "hll_union_raw_sketch_coarser",
   "hll_union_sketch_raw_sketch_finer", "hll_union_sketch_raw_sketch_equal", "hll_union_sketch_raw_sketch_coarser", "hll_reuse", "hll_union_reuse", "hll8_large_lgk",
-  "hll_union_set_source_alone", "hll_union_set_source_after_raw", "hll_union_set_source_into_hll_gadget", "hll_union_set_source_then_raw", "hll_union_rollup"};
+  "hll_union_set_source_alone", "hll_union_set_source_after_raw", "hll_union_set_source_into_hll_gadget", "hll_union_set_source_then_raw", "hll_union_rollup", "hll4_downsample_large_n", "hll6_downsample_large_n", "hll8_downsample_large_n"};
 static const target_hll_type TYPES[] = {HLL_4, HLL_6, HLL_8};
 
 static std::vector<Cell> build_cells(bool thorough) {
@@ -59,6 +62,9 @@ static std::vector<Cell> build_cells(bool thorough) {
     Cell x; x.fam = f; x.lg_k = 15; x.mi = 0; x.trials = thorough ? 800 : 200; x.n = 16384; x.cost = 1.5 * static_cast<double>(x.n) * x.trials; cells.push_back(x);
     if (f <= F_SETSRC_AFTER_RAW || thorough) { x.lg_k = 17; x.trials = thorough ? 400 : 100; x.n = 49152; x.cost = 1.5 * static_cast<double>(x.n) * x.trials; cells.push_back(x); }
     if (thorough) { x.lg_k = 12; x.trials = 600; x.n = 16384; x.cost = 1.5 * static_cast<double>(x.n) * x.trials; cells.push_back(x); x.lg_k = 15; x.n = 65536; x.cost = 1.5 * static_cast<double>(x.n) * x.trials; cells.push_back(x); }
+  }
+  for (int f = F_DOWN4; f <= F_DOWN8; ++f) {
+    Cell x; x.fam = f; x.lg_k = 6; x.mi = 0; x.trials = f == F_DOWN6 ? (thorough ? 12 : 4) : (thorough ? 6 : 2); x.n = 1ULL << 23; x.cost = static_cast<double>(x.n) * x.trials; cells.push_back(x);
   }
   for (auto& c : raw_cfgs)
     for (int mi = 0; mi <= c.max_mi; ++mi) {
@@ -138,6 +144,23 @@ void run_case(uint64_t idx, Rng& r) {
       const Chain rc = read_chain_c(res);
       VF_CHECK(rc.unstable.empty() && same_chain(rc, tr.back().c), fam + "|union-object-vs-result|estimate-or-bounds-differ", ctx + " union: " + tr.back().c.to_string() + " result: " + rc.to_string());
       if (u.get_current_mode() == HLL) { count("mc_set_source_gadget_promoted_trials"); if (u.is_out_of_order_flag()) any_ooo_union = true; }
+    } else if (cell.fam >= F_DOWN4 && cell.fam <= F_DOWN8) {
+      const uint8_t src_lg = static_cast<uint8_t>(7 + (G().thorough() && (t & 1) ? 1 : 0));
+      const target_hll_type ty = TYPES[cell.fam - F_DOWN4];
+      hll_union u(cell.lg_k);
+      uint32_t big_registers = 0;
+      for (int half = 0; half < 2; ++half) {
+        hll_sketch sk(src_lg, ty);
+        for (uint64_t i = half * (n / 2); i < (half + 1) * (n / 2); ++i) sk.update(key(i));
+        if (half == 0) { const hll_sketch as8(sk, HLL_8); const auto img = as8.serialize_updatable(); for (size_t j = 40; j < img.size() && j < 40 + (1u << src_lg); ++j) if (img[j] >= 16) ++big_registers; }
+        u.update(sk);
+      }
+      count("mc_downsample_source_registers_16_and_above", big_registers);
+      tr.push_back(observe(u, n, fam, ctx));
+      const hll_sketch res = u.get_result(TYPES[t % 3]);
+      const Chain rc = read_chain_c(res);
+      VF_CHECK(rc.unstable.empty() && same_chain(rc, tr.back().c), fam + "|union-object-vs-result|estimate-or-bounds-differ", ctx + " union: " + tr.back().c.to_string() + " result: " + rc.to_string());
+      if (u.get_current_mode() == HLL && u.is_out_of_order_flag()) any_ooo_union = true;
     } else if (cell.fam == F_ROLLUP) {
       const uint64_t a_end = n - n * 2 / 5, b_begin = n * 2 / 5;
       const uint8_t fine_lg = static_cast<uint8_t>(cell.lg_k + 2);
